@@ -2,7 +2,7 @@
    BaseAuth.login (Gen/LoginLockGen.v) obeys the lock discipline the step model of Model/LoginCacheConc.v assumes.
    Built separately from Props/C17.v (checks/C17.py) so that a tree that violates the discipline still gets the
    sequential theorems and correspondence checked. *)
-From Coq Require Import List NArith Bool.
+From Coq Require Import List NArith Bool String.
 Import ListNotations.
 Require Import RV.Model.LoginCache RV.Model.LoginCacheConc.
 Require RV.Gen.LoginLockGen.
@@ -16,4 +16,10 @@ Proof. split; reflexivity. Qed.
 (* the accesses, in source order, are exactly those of the step model (TSweep ... TStoreFail) *)
 Lemma Gen_cache_access_shape :
   list_eqb shape_eqb (map shape_of LoginLockGen.cache_accesses) expected_shape = true.
+Proof. reflexivity. Qed.
+
+(* ANY attribute of `self` that login or a BaseAuth method it calls writes (assignment, item store/delete, mutating
+   method) is written only inside `with self._lock:` and read outside it only by a single atomic read: no instance
+   state is shared between concurrent requests outside the critical sections.  (`offending` names the attributes.) *)
+Lemma Gen_shared_attrs_locked : offending LoginLockGen.shared_attr_accesses = [].
 Proof. reflexivity. Qed.
